@@ -551,6 +551,19 @@ func (r *runner) step(a string) {
 		if !seen && r.executorAlive() {
 			r.obs.Unrealised = append(r.obs.Unrealised, "listen: the executor's client did not connect")
 		}
+	case "starve":
+		// the task never becomes ready: wait for the executor to give up (GRPC_DIAL_TIMEOUT resp.
+		// startupTimeout, 30 s each) and, after a failed dial, for its TERM/INT/KILL escalation
+		if !r.ag.waitFor(func([]obsItem) bool { return r.hasTerminal() || !r.executorAlive() }, 40*time.Second) {
+			r.obs.Unrealised = append(r.obs.Unrealised, "starve: no terminal status within 40 s")
+		}
+		deadline := time.Now().Add(7 * time.Second)
+		for time.Now().Before(deadline) && r.executorAlive() {
+			if n, _ := r.liveCount(); n == 0 && !r.gcAlive() {
+				break
+			}
+			time.Sleep(50 * time.Millisecond)
+		}
 	case "ready":
 		os.WriteFile(filepath.Join(r.dir, "ready"), []byte("1"), 0o644)
 		if !r.ag.waitFor(func(items []obsItem) bool {
